@@ -439,6 +439,15 @@ def case_special(name):
                 fem.mesh.Line(a=1, b=3, n=4).revolve(phi=np.array([30.0, 120.0, 240.0, 300.0, 390.0]), axis=2)
                 fem.mesh.Line(a=1, b=3, n=4).expand(n=3, z=2.0)
                 fem.mesh.Point(a=0.5).expand(n=3, z=2.0)
+                # bodies whose point list goes on behind the last point any cell uses (a block of a container, a sub-mesh, added points):
+                # point numbers of the layers are positions in the stacked point list (round 11: offsets taken from cells.max() + 1)
+                for base in (fem.mesh.Line(a=1, b=3, n=4), r):
+                    extra = base.points.max(0) + 1.0 + np.arange(2 * base.dim).reshape(2, base.dim)
+                    padded = fem.Mesh(np.vstack([base.points, extra]), base.cells, base.cell_type)
+                    padded.expand(n=3, z=2.0)
+                    sub = fem.Mesh(base.points, base.cells[: max(1, len(base.cells) // 2)], base.cell_type)
+                    sub.expand(n=int(rng.integers(2, 4)), z=float(rng.uniform(0.5, 1.5)))
+                    run.units["expand:trailing-points-without-cells"] += 1
                 # angles as tuple / list / integer array
                 r.revolve(phi=(0.0, 40.0, 75.0), axis=0)
                 r.revolve(phi=[0, 120, 240, 360], axis=0)
@@ -824,7 +833,7 @@ def _required():
                                       "add_midpoints_faces", "add_midpoints_volumes", "collect_edges", "collect_faces", "collect_volumes",
                                       "merge_duplicate_points", "merge_duplicate_cells")]
     # fourth audit: values by position (named by the documented order), full circles against the closed form of their polygon
-    req += ["method:positional-arguments", "function:positional-arguments", "generator:positional-arguments", "gen.Circle:regular-polygon"]
+    req += ["method:positional-arguments", "function:positional-arguments", "expand:trailing-points-without-cells", "generator:positional-arguments", "gen.Circle:regular-polygon"]
     return req
 
 
